@@ -200,8 +200,8 @@ func vc07_urlvalue(n int, quoted bool) {
 	vassert(string(dec) == s, "url-query-value-roundtrip")
 }
 
-func vh_c07_urlvalq_q() { vc07_urlvalue(2, true) }
-func vh_c07_urlvalu_q() { vc07_urlvalue(2, false) }
+func vh_c07_urlvalq_q() { vc07_urlvalue(3, true) }
+func vh_c07_urlvalu_q() { vc07_urlvalue(3, false) }
 func vh_c07_urlvalq_t() { vc07_urlvalue(4, true) }
 func vh_c07_urlvalu_t() { vc07_urlvalue(3, false) }
 func vh_c07_css_q()   { vc07_css(3) }
